@@ -3,8 +3,9 @@ result per line.  argv[1]: scratch directory.
 
 case = {"steps": [{"pre": [resource, ...], "line": "<raw bytes as latin-1 text>", "nl": bool,
                    "sig": ["INT"|"TERM", "pid"|"group"] (optional)}, ...],
-        "werror": bool, "pending": [["INT"|"TERM", "pid"|"group"], ...] (optional)}
+        "werror": bool, "pending": [["INT"|"TERM", "pid"|"group"], ...] (optional), "faults": {name: k} (optional)}
   "sig"     : that signal is sent to the tracker (its pid / its process group) just before the line
+  "faults"  : {name: k}: inside the tracker process os.unlink(name) raises PermissionError on its first k attempts
   "pending" : the tracker is spawned with SIGINT/SIGTERM blocked, as ensure_running() does, and these
               signals are sent immediately; the child enters main() only once they are pending
   "pre"  : resources of the universe to (re)create before the line is sent
@@ -132,6 +133,8 @@ def run_case(case, scratch):
     pend = case.get("pending") or []
     if pend:
         cmd.append("pending=" + ",".join(sorted({x[0] for x in pend})))
+    if case.get("faults"):
+        cmd.append("faults=" + json.dumps(case["faults"]))
     errf = open(errp, "wb")
 
     def send_sig(p, name, target):
